@@ -48,5 +48,6 @@ var Checks = map[string]func(env *Env, rep *Report){
 	"C02": RunC02,
 	"C03": RunC03,
 	"C05": RunC05,
+	"C10": RunC10,
 	"C11": RunC11,
 }
